@@ -60,7 +60,7 @@ func genC13(g GenCtx) interface{} {
 		// a list fails: the controller stops (C14) - or, if it does not, it must
 		// not sit there alive without ever listing again
 		sc.FailAt = 1 + rng.Intn(sc.Periods)
-		sc.FailKind = pick(rng, "error", "error-with-list", "error-with-full-list", "error-timeout", "error-canceled", "error-canceled-bare", "error-deadline-bare", "error-notrunning", "error-notrunning-wrapped")
+		sc.FailKind = pick(rng, "error", "error-typed-nil", "error-with-list", "error-with-full-list", "error-timeout", "error-canceled", "error-canceled-bare", "error-deadline-bare", "error-notrunning", "error-notrunning-wrapped")
 	}
 	busy := g.Idx%10 == 7
 	if busy {
